@@ -8,16 +8,21 @@ Open Scope N_scope.
    (name, DESCRIBE as column definitions, SELECT * ORDER BY id as name-indexed rows) *)
 Definition case : Type := (table * list (op * (bool * table)))%type.
 
+Fixpoint bl_eqb (a b : list (list N)) : bool :=
+  match a, b with
+  | [], [] => true
+  | x :: a', y :: b' => bytes_eqb x y && bl_eqb a' b'
+  | _, _ => false
+  end.
+
 Definition ty_eqb (a b : ty) : bool :=
   match a, b with
   | TInt l h, TInt l' h' => Z.eqb l l' && Z.eqb h h'
-  | TStr n, TStr n' => N.eqb n n'
-  | TEnum a, TEnum b => (fix le (a b : list (list N)) : bool :=
-                           match a, b with
-                           | [], [] => true
-                           | x :: a', y :: b' => bytes_eqb x y && le a' b'
-                           | _, _ => false
-                           end) a b
+  | TStr n k, TStr n' k' => N.eqb n n' && N.eqb k k'
+  | TEnum a, TEnum b => bl_eqb a b
+  | TDec p s, TDec p' s' => N.eqb p p' && N.eqb s s'
+  | TDate, TDate => true
+  | TDatetime, TDatetime => true
   | _, _ => false
   end.
 Definition col_eqb (a b : col) : bool := N.eqb (cn a) (cn b) && ty_eqb (cty a) (cty b) && Bool.eqb (cnullable a) (cnullable b).
@@ -29,21 +34,18 @@ Fixpoint list_eqb {A} (e : A -> A -> bool) (a b : list A) : bool :=
   | _, _ => false
   end.
 
-Definition val_eqb (a b : val) : bool :=
-  match a, b with
-  | VNull, VNull => true
-  | VInt x, VInt y => Z.eqb x y
-  | VStr x, VStr y => list_eqb N.eqb x y
-  | _, _ => false
-  end.
 Definition oval_eqb (a b : option val) : bool :=
   match a, b with Some x, Some y => val_eqb x y | None, None => true | _, _ => false end.
 
 (* rows agree on every column of the schema *)
 Definition row_eqb (ns : list name) (r r' : row) : bool := forallb (fun n => oval_eqb (lookup n r) (lookup n r')) ns.
 
+(* the primary key is observed as the set of PRI columns of DESCRIBE *)
+Definition set_eqb (a b : list name) : bool := forallb (fun x => memb x b) a && forallb (fun x => memb x a) b.
+
 Definition table_eqb (a b : table) : bool :=
-  N.eqb (tn a) (tn b) && list_eqb col_eqb (cols a) (cols b) && list_eqb (row_eqb (names a)) (rows a) (rows b).
+  N.eqb (tn a) (tn b) && list_eqb col_eqb (cols a) (cols b) && set_eqb (pk a) (pk b) &&
+  list_eqb (row_eqb (names a)) (rows a) (rows b).
 
 Fixpoint steps_ok (t : table) (l : list (op * (bool * table))) : bool :=
   match l with
